@@ -322,7 +322,10 @@ func genC20GCSMix() *rapid.Generator[C20GCSMix] {
 			case 9:
 				return gcs.Req{Method: "PATCH", Path: gcs.ObjPath("bkt", n), Headers: map[string]string{"Content-Type": "application/json"}, Body: `{"metadata":{"k":"v"}}`}
 			case 10:
-				return gcs.Req{Method: "POST", Path: gcs.ObjPath("bkt", n) + "/rewriteTo/b/bkt/o/copy-" + gcs.EscName(n), Body: "{}"}
+				// copies to a fresh name, onto the object itself, and between the live names in both directions (two
+				// requests that each need both objects)
+				dst := rapid.SampledFrom([]string{"copy-" + n, n, "a", "b", "dir/x"}).Draw(t, "dst")
+				return gcs.Req{Method: "POST", Path: gcs.ObjPath("bkt", n) + "/rewriteTo/b/bkt/o/" + gcs.EscName(dst), Body: "{}"}
 			default:
 				return gcs.Req{Method: "GET", Path: gcs.ObjPath("bkt", n) + "?alt=media"}
 			}
